@@ -253,6 +253,50 @@ def rule_g7(ctx):
               "open leaf (e.g. one labelled with a recursive needle) can still produce occurrences", "all open leaves considered")
 
 
+def rule_g9(ctx):
+    """evaluate(), path for numeric quantifiers / assumptions: quantifiers over OPEN trees (and other untranslatable parts) are abstracted by uninterpreted placeholder
+    predicates and the result is handed to is_valid.  `valid` -> TRUE is sound for every completion; `not valid` only says that SOME interpretation of the placeholders
+    falsifies the formula - FALSE additionally needs the negation to be valid (no interpretation satisfies it), otherwise the verdict is UNKNOWN."""
+    f = ctx.repo.func(EVAL, "evaluate", "C06.G9")
+    c = f"{EVAL}:evaluate"
+    def tgt(a):
+        t = a.targets[0] if isinstance(a, ast.Assign) and len(a.targets) == 1 else (a.target if isinstance(a, ast.AnnAssign) else None)
+        return t.id if isinstance(t, ast.Name) else None
+
+    approx = [a for a in walk_local(f) if isinstance(a, (ast.Assign, ast.AnnAssign)) and isinstance(a.value, ast.Call) and call_name(a.value) == "approximate_isla_to_smt_formula" and tgt(a)]
+    if len(approx) != 1:
+        raise Unrecognised("C06.G9", c, "smt_formula = approximate_isla_to_smt_formula(...) not found")
+    v = tgt(approx[0])
+    abstracted = any(k.arg == "replace_untranslatable_with_predicate" and src(k.value) == "True" for k in approx[0].value.keywords) or (len(approx[0].value.args) > 1 and src(approx[0].value.args[1]) == "True")
+    res = [a for a in walk_local(f) if isinstance(a, (ast.Assign, ast.AnnAssign)) and isinstance(a.value, ast.Call) and call_name(a.value) == "is_valid" and src(a.value.args[0]) == v and tgt(a)]
+    if len(res) != 1:
+        raise Unrecognised("C06.G9", c, f"<result> = is_valid({v}) not found")
+    r = tgt(res[0])
+    loop = parent(approx[0])
+    rets = [x for x in ast.walk(loop) if isinstance(x, ast.Return) and x.value is not None and src(x.value) in ("ThreeValuedTruth.false()", "ThreeValuedTruth.true()")] if isinstance(loop, (ast.For, ast.While)) else []
+    falses = [x for x in rets if src(x.value) == "ThreeValuedTruth.false()"]
+    if not falses:
+        raise Unrecognised("C06.G9", c, "no `return ThreeValuedTruth.false()` after the validity query")
+    if not abstracted:
+        ctx.ok("G9-not-valid-is-not-false", c, "no placeholder abstraction", site(approx[0]), "formula translated exactly")
+        return
+    for x in falses:
+        fs = facts(x)
+        neg_valid = [t for t in fs if t.positive and "is_valid(" in t.text and (f"z3.Not({v})" in t.text or f"Not({v})" in t.text) and ".is_true()" in t.text]
+        if neg_valid:
+            ctx.ok("G9-not-valid-is-not-false", c, "FALSE only when the negation is valid", site(x), neg_valid[0].text[:80])
+        elif any(t.positive and t.text == f"{r}.is_false()" for t in fs) or any((not t.positive) and t.text in (f"{r}.is_true()", f"{r}.is_unknown()") for t in fs):
+            ctx.viol("G9-not-valid-is-not-false", c, "FALSE only when the negation is valid", site(x),
+                     f"FALSE is returned as soon as is_valid({v}) fails, but {v} abstracts quantifiers over open trees by uninterpreted predicates "
+                     "(replace_untranslatable_with_predicate=True): 'not valid' only means that SOME interpretation falsifies it.  "
+                     "`exists int n: (str.to.int(n) = 1 and exists <var> v in start: v = \"a\")` on the open tree `<var> := 1` is FALSE, its completion `a := 1` is TRUE")
+        else:
+            raise Unrecognised("C06.G9", c, f"conditions of `return ThreeValuedTruth.false()` not understood: {[str(t)[:60] for t in fs]}")
+    trues = [x for x in ast.walk(f) if isinstance(x, ast.Return) and x.value is not None and src(x.value) == "ThreeValuedTruth.true()"]
+    ctx.check(len(trues) == 1 and trues[0] in f.body, "G9-not-valid-is-not-false", c, "TRUE only after every assumption set was proven valid", site(trues[0] if trues else f),
+              "ThreeValuedTruth.true() must be the fall-through after the loop over the assumption sets", "after the loop")
+
+
 def rule_g8(ctx):
     """approximate_isla_to_smt_formula abstracts every untranslatable sub-formula by a placeholder predicate recorded in ONE mapping shared by the whole recursion:
     different sub-formulas must get different placeholders, or `P_1 or not P_1` is reported valid for two unrelated operands (TRUE on an open tree whose completions are FALSE)."""
@@ -266,6 +310,7 @@ def rule_g8(ctx):
 def run(ctx) -> str:
     ctx.guarded("G7", lambda: rule_g7(ctx))
     ctx.guarded("G8", lambda: rule_g8(ctx))
+    ctx.guarded("G9", lambda: rule_g9(ctx))
     ctx.guarded("G1", lambda: rule_g1(ctx))
     ctx.guarded("G2", lambda: rule_g2(ctx))
     ctx.guarded("G3", lambda: rule_g3(ctx))
